@@ -27,7 +27,9 @@ from concurrent.futures import ThreadPoolExecutor
 ROOT = os.path.dirname(os.path.dirname(os.path.abspath(__file__)))
 REPO = os.environ.get("VERIF_REPO", "/repo")
 CACHE = os.path.join(ROOT, ".cache")
-COQ = os.path.join(ROOT, "coq")
+# VERIF_COQ: a private copy of the Coq tree (seeded-change experiments only, so that their regenerated fragments do
+# not disturb other builds); registered commands never set it
+COQ = os.environ.get("VERIF_COQ", os.path.join(ROOT, "coq"))
 NCPU = int(os.environ.get("VERIF_JOBS", "16"))
 GUARD = "dashu_verif"
 
@@ -177,6 +179,8 @@ def unhx(s):
 class Lock:
     def __init__(self, name):
         os.makedirs(CACHE, exist_ok=True)
+        if name in ("coq", "coqmake") and "VERIF_COQ" in os.environ:
+            name += "-" + hashlib.sha256(COQ.encode()).hexdigest()[:8]
         self.path = os.path.join(CACHE, name + ".lock")
 
     def __enter__(self):
